@@ -102,4 +102,23 @@ def wC11 (p : Particle) (ops : List Op) : Bool :=
     ops.all (fun op => match op with | .repl _ _ _ => false | _ => true) &&
     r2.1.all (· == true) && view r != view r2
 
+def insertAll (x : Nat) : List Nat → List (List Nat)
+  | [] => [[x]]
+  | y :: r => (x :: y :: r) :: (insertAll x r).map (y :: ·)
+def perms : List Nat → List (List Nat)
+  | [] => [[]]
+  | x :: r => (perms r).flatMap (insertAll x)
+
+/-- C12 fails: the children have exactly one schema-valid arrangement, yet adding them in this order is refused,
+    or leaves something "required", or is serialised in another arrangement -/
+def wC12 (spec p : Particle) (w : List Nat) : Bool :=
+  let r := runObs p (addsOf w)
+  match ((perms w).filter spec.accepts).eraseDups with
+  | [arr] =>
+    r.1.any (· == false) ||
+      (match r.2.1.getLast? with
+       | some ob => ob.required != some [] || ob.ordered.map (·.map (nameOf r.2.2)) != some arr
+       | none => false)
+  | _ => false
+
 end Mfull
